@@ -65,8 +65,24 @@ def g_mutable(x=SHARED_DEFAULT, y=SHARED_DEFAULT):
   return ('gm', x, y)
 
 
+class Registry:
+  def __init__(self, name='r', hooks=[]):   # pylint: disable=dangerous-default-value
+    self.name, self.hooks = name, hooks
+
+
+class Trainer:
+  def __init__(self, callbacks=None):
+    self.callbacks = callbacks
+
+
+def shared_equal_to_default():
+  hooks = []        # equal to Registry's default, but shared with the Trainer
+  return fdl.Config(pool.fc, fdl.Config(Registry, hooks=hooks), q=fdl.Config(Trainer, callbacks=hooks))
+
+
 def extra_pool():
   P = dict(pool.make_pool())
+  P['shared-value-equal-to-mutable-default'] = shared_equal_to_default
   P['posonly-defaults'] = lambda: fdl.Config(g_posonly)
   P['posonly-partly'] = lambda: fdl.Config(g_posonly, 9, k=7)
   P['mutable-defaults'] = lambda: fdl.Config(pool.fc, fdl.Config(g_mutable), q=fdl.Partial(g_mutable))
